@@ -18,6 +18,12 @@ def farAnswer (nd : Forward.Node) (ifc : Forward.Iface) (f : Forward.Frame) : Bo
      | .router => routerAccepts ifc f.dec
      | .switch => true)
 
+/-- What `wireless_router.WirelessAccessPoint.receive_frame` answers when `AirSpace.transmit` hands it a frame: enabled, the TTL
+survives the decrement, and the frame is for this access point's MAC address or a layer-2 broadcast — the same test as a router
+interface's.  (`AirSpace.transmit` ignores the answer: a frame nobody takes still counts as sent on the frequency.) -/
+def farAnswerWap (ifc : Forward.Iface) (f : Forward.Frame) : Bool :=
+  ifc.enabled && !(decide (f.dec.ttl < 1)) && routerAccepts ifc f.dec
+
 /-- The receiving node as far as the acceptance test reads it: its kind and the addresses of its interfaces
 (`Node.ip_is_network_interface`). -/
 def farNode (kind : Forward.Kind) (ownIps : List Ip) : Forward.Node :=
